@@ -10,7 +10,7 @@ No whoosh code is modified: the wrapper is an ordinary Storage subclass.
 import os
 import json
 
-from whoosh.filedb.filestore import FileStorage
+from whoosh.filedb.filestore import FileStorage, RamStorage
 from whoosh.filedb.structfile import StructFile
 from whoosh.util.filelock import FileLock
 
@@ -27,6 +27,7 @@ class Clock(object):
         self.on_tick = on_tick
         self.record = record
         self.events = []
+        self.lock_results = []
         self.log_path = log_path
         self.count_reads = count_reads
         self.open_files = {}   # id(CountingFile) -> CountingFile
@@ -134,7 +135,7 @@ class CountingLock(object):
         self.clock.tick("lock_acquire", self.name)
         ok = self.real.acquire(blocking)
         if self.clock.record:
-            self.clock.events.append(("lock_result", bool(ok)))
+            self.clock.lock_results.append((self.clock.n - 1, bool(ok)))
         return ok
 
     def release(self):
@@ -200,3 +201,34 @@ class FaultStorage(FileStorage):
         name = name or "%s.tmp" % random_name()
         path = os.path.join(self.folder, name)
         return FaultStorage(path, self.clock, supports_mmap=self.supports_mmap).create()
+
+
+class FaultRamStorage(RamStorage):
+    """RamStorage whose state-changing operations are numbered by a Clock (a file becomes visible when it is
+    closed, so creation is ticked at create and at close)."""
+
+    def __init__(self, clock):
+        RamStorage.__init__(self)
+        self.clock = clock
+
+    def create_file(self, name, **kwargs):
+        self.clock.tick("create", name)
+        f = RamStorage.create_file(self, name, **kwargs)
+        inner = f.onclose
+
+        def onclose(sfile):
+            self.clock.tick("close", name)
+            inner(sfile)
+        f.onclose = onclose
+        return f
+
+    def delete_file(self, name):
+        self.clock.tick("delete", name)
+        return RamStorage.delete_file(self, name)
+
+    def rename_file(self, name, newname, safe=False):
+        self.clock.tick("rename", "%s -> %s" % (name, newname))
+        return RamStorage.rename_file(self, name, newname, safe=safe)
+
+    def lock(self, name):
+        return CountingLock(RamStorage.lock(self, name), self.clock, name)
